@@ -1,4 +1,5 @@
 import Splipy.Model.Object
+import Splipy.Model.Identical
 
 /-!
 # Executable model of the boundary-extraction and boundary-filling code (property C15)
@@ -14,15 +15,10 @@ Python sources mirrored here:
   `coons_patch`, `extrude`;
 * `splipy/volume_factory.py`: `edge_surfaces` (2 and 6 faces), `extrude`.
 
-Scope notes.
-* `make_splines_identical` (degree elevation + knot refinement of two objects to a common basis) is
-  property C12's model.  The factories are modelled for inputs whose bases are *already identical
-  after reparametrisation to `[0,1]`* (orders ≥ 2, open knot vectors); for such inputs the only work
-  `make_splines_identical` performs on the auxiliary (bi/tri)linear blending objects is to express
-  the linear functions `1-v`, `v` in the target basis, whose coefficients are the Greville abscissae
-  (linear precision, `Lemmas/LinearPrecision.lean`).  Inputs outside that scope give `none`
-  ("unsupported"), never a default.
-* `thicken` normalises the velocity with a square root and is not modelled (oracle only).
+The factories mirror the Python statement by statement and call the shared model of
+`make_splines_identical` (`Model/Identical.lean`, property C12), `swap`, `reverse`, `force_rational`
+(`Model/Object.lean`); nothing is short-cut and no input is declared "unsupported".
+`thicken` normalises the velocity with a square root and is not modelled (oracle only).
 -/
 
 namespace Splipy
@@ -143,11 +139,13 @@ def sliceSecFrom (d : ℕ) : List (Option ℕ) → Tensor K → Tensor K
 
 def sliceSec (t : Tensor K) (sec : List (Option ℕ)) : Tensor K := sliceSecFrom 0 sec t
 
-/-- numpy's resolution of the integer selectors against the axis lengths (`zip(shape, section)`,
-    left to right, `IndexError` at the first index out of range). -/
+/-- numpy's resolution of `self.controlpoints[slices]`: the selectors are applied to the axes of the
+    control array *including the component axis* (`shape` = all axis lengths), left to right;
+    `IndexError` at the first integer out of range and when there are more selectors than axes
+    ("too many indices for array"). -/
 def resolveSel : List ℕ → Sec → PyM (List (Option ℕ))
   | _, [] => .ok []
-  | [], _ :: _ => .ok []
+  | [], _ :: _ => .error .index
   | _ :: ns, none :: r => (resolveSel ns r).map (none :: ·)
   | n :: ns, some i :: r =>
     match pyIndex n i with
@@ -169,6 +167,9 @@ def sectionSel (o : Obj K) (sec : Sec) (unwrap : Bool) : PyM (SecResult K) :=
     let cps := sliceSec o.cps idx
     let bases := freeBases o.bases.toList sec
     if !bases.isEmpty ∨ !unwrap then
+      -- the constructor reads `self.controlpoints.shape[-1]`: `IndexError` on a 0-d array (every
+      -- axis, the component axis included, was indexed)
+      if cps.shape.isEmpty then .error .index else
       .ok (.obj (className bases.length) { bases := bases.toArray, cps := cps, rational := o.rational })
     else .ok (.point cps.data)
 
@@ -204,17 +205,18 @@ def cpcCount (b : Basis K) (cont : Option Int) : ℕ :=
     | none => p1
     | some c => min c p1).toNat
 
-/-- The tail of `const_par_curve`: row `i = max(bisect_left(b.knots, knot) - 1, 0)` of the refined
-    net (`C[i,:] · cps`; `IndexError` when `C` has no such row), wrapped as a `Curve` on the other
-    basis. -/
+/-- The tail of `const_par_curve`: row `i = max(bisect_left(b.knots, knot) - 1, 0) % b.num_functions()`
+    of the refined net (`C[i,:] · cps`; `ZeroDivisionError` for a basis without functions, `IndexError`
+    when `C` has no such row), wrapped as a `Curve` on the other basis. -/
 def cpcPick (o o' : Obj K) (dir : ℕ) (knot : K) : PyM (Obj K) :=
-  let i := (o'.basis dir).bisectL knot - 1
+  if (o'.basis dir).numFunctions = 0 then .error .zeroDiv else
+  let i := ((o'.basis dir).bisectL knot - 1) % (o'.basis dir).numFunctions
   if o'.cps.shape.getD dir 0 ≤ i then .error .index else
   .ok { bases := #[o.basis (1 - dir)], cps := o'.cps.takeAxis dir i, rational := o.rational }
 
 /-- `Surface.const_par_curve(knot, direction)`. -/
 def constParCurve (o : Obj K) (tol knot : K) (direction : Int ⊕ String) : PyM (Obj K) := do
-  let dir ← checkDirection direction 2
+  let dir ← Sections.checkDirection direction 2
   let cont ← (o.basis dir).continuity tol knot
   -- `for i in range(mult): C = b.insert_knot(knot) @ C`
   let o' ← o.insertKnots (List.replicate (cpcCount (o.basis dir) cont) knot) dir
@@ -225,31 +227,12 @@ def constParCurve (o : Obj K) (tol knot : K) (direction : Int ⊕ String) : PyM 
 /-- `BSplineBasis(2)`. -/
 def linearBasis : Basis K := { order := 2, knots := #[0, 0, 1, 1], periodic := -1 }
 
-/-- `make_splines_compatible(a, b)` (both possibly modified). -/
+/-- `make_splines_compatible(a, b)` in its plain form (`set_dimension` applied also when nothing
+    changes; used by `Model/History.lean`; the factories below use `Obj.makeCompatible` of property
+    C12, which is extensionally the same). -/
 def compatible (a b : Obj K) : Obj K × Obj K :=
   let (a, b) := if a.rational then (a, b.forceRational) else if b.rational then (a.forceRational, b) else (a, b)
   if a.dimension > b.dimension then (a, b.setDimension a.dimension) else (a.setDimension b.dimension, b)
-
-/-- `reparam()` of every direction to `[0,1]`. -/
-def reparamUnit (o : Obj K) : PyM (Obj K) :=
-  (List.range o.bases.size).foldlM (fun o d => o.reparamDir d 0 1) o
-
-def sameBasis (a b : Basis K) : Bool :=
-  a.order == b.order && a.periodic == b.periodic && a.knots.toList == b.knots.toList
-
-/-- Is this pair inside the modelled scope of `make_splines_identical`: equal open bases of order
-    ≥ 2 in every direction (after the reparametrisation)? -/
-def identicalBases (a b : Obj K) : Bool :=
-  a.bases.size == b.bases.size &&
-  (List.zip a.bases.toList b.bases.toList).all (fun (x, y) => sameBasis x y && x.periodic == -1 && decide (2 ≤ x.order))
-
-/-- The part of `make_splines_identical(a, b)` that is modelled: compatibility + reparametrisation;
-    `none` when the bases are then not identical (C12's territory). -/
-def identical? (a b : Obj K) : PyM (Option (Obj K × Obj K)) := do
-  let (a, b) := compatible a b
-  let a ← a.reparamUnit
-  let b ← b.reparamUnit
-  pure (if identicalBases a b then some (a, b) else none)
 
 /-- Stack two control nets along a new last parametric axis of length 2. -/
 def stack2 (a b : Tensor K) : Tensor K :=
@@ -262,10 +245,29 @@ def stack2 (a b : Tensor K) : Tensor K :=
       let pI := k.val / (2 * nc)
       (if j = 0 then a else b).get (pI * nc + c)) }
 
-/-- `edge_curves(c1, c2)` / `edge_surfaces(s1, s2)`: the ruled object between two inputs. -/
-def ruled (a b : Obj K) : PyM (Option (Obj K)) := do
-  let some (a, b) ← identical? a b | pure none
-  pure (some { bases := a.bases.push linearBasis, cps := stack2 a.cps b.cps, rational := a.rational })
+/-- numpy `a += b` / `a -= b` on two control arrays (after `make_splines_identical` the shapes
+    agree; otherwise numpy raises `ValueError`: operands could not be broadcast together). -/
+def cpsAdd (a b : Tensor K) (sub : Bool) : PyM (Tensor K) :=
+  if a.shape ≠ b.shape then .error .value else
+  .ok { shape := a.shape,
+        data := Array.ofFn (n := Tensor.prod a.shape)
+          (fun k => if sub then a.get k.val - b.get k.val else a.get k.val + b.get k.val) }
+
+/-- The two-input branch of `edge_curves` (`curve = true`) and `edge_surfaces` (`curve = false`):
+    ```
+    crv1 = curves[0].clone(); crv2 = curves[1].clone()
+    Curve.make_splines_identical(crv1, crv2)
+    controlpoints[:n] = crv1.controlpoints; controlpoints[n:] = crv2.controlpoints
+    return Surface(crv1.bases[0], BSplineBasis(2), controlpoints, crv1.rational)
+    ```
+    (`[..., 0, :] = surf1`, `[..., 1, :] = surf2`, `raw=True` for surfaces).  Copying `crv2`'s net
+    into the slot shaped like `crv1`'s raises `ValueError` when the shapes differ. -/
+def ruled (tol : K) (curve : Bool) (a b : Obj K) : PyM (Obj K) :=
+  match makeIdentical tol curve curve a b none with
+  | .error e => .error e
+  | .ok r =>
+    if r.2.cps.shape ≠ r.1.cps.shape then .error .value else
+    .ok { bases := r.1.bases.push linearBasis, cps := stack2 r.1.cps r.2.cps, rational := r.1.rational }
 
 /-- Homogeneous control point `curve[i]` (python index). -/
 def cpRow (o : Obj K) (i : Int) : Array K :=
@@ -323,61 +325,78 @@ namespace Obj
 def compatAll (cs : Array (Obj K)) : Array (Obj K) :=
   (List.range cs.size).foldl (fun cs i =>
     (List.range' (i+1) (cs.size - (i+1))).foldl (fun (cs : Array (Obj K)) j =>
-      let (a, b) := compatible (cs.getD i Inhabited.default) (cs.getD j Inhabited.default)
-      (cs.set! i a).set! j b) cs) cs
+      let r := makeCompatible (cs.getD i Inhabited.default) (cs.getD j Inhabited.default)
+      (cs.set! i r.1).set! j r.2) cs) cs
 
-/-- Normalised Greville abscissae of an (already `[0,1]`) basis. -/
-def grev (b : Basis K) : PyM (Array K) := b.greville
+/-- `Surface(linear, linear, [p00, p10, p01, p11], rat)` / `Volume(controlpoints=[8 rows], rational=rat)`:
+    `np.array` of the rows (`ValueError` when they have different lengths), default / linear bases,
+    control points reshaped with `order='F'` (first index fastest). -/
+def fromCorners (pardim : ℕ) (rows : List (Array K)) (rat : Bool) : PyM (Obj K) :=
+  let d := (rows.headD #[]).size
+  if rows.any (fun r => r.size ≠ d) then .error .value else
+  let shape := List.replicate pardim 2
+  .ok { bases := (List.replicate pardim linearBasis).toArray,
+        cps := Tensor.tabulate (shape ++ [d]) (fun idx =>
+          -- F-order position of the multi-index: i0 + 2*i1 + 4*i2
+          let pos := (List.zip (List.range pardim) (idx.take pardim)).foldl (fun acc (k, i) => acc + i * 2 ^ k) 0
+          (rows.getD pos #[]).getD (idx.getD pardim 0) 0),
+        rational := rat }
 
-/-- One entry of the Coons net: `s1 + s2 - s3` at blending abscissae `x` (direction `u`) and `y`
-    (direction `v`); `bi, ti` bottom/top control points `i`, `lj, rj` left/right control points `j`,
-    `c..` the corner points `bottom[0], bottom[-1], top[0], top[-1]`. -/
-def coonsEntry (x y bi ti lj rj c00 c10 c01 c11 : K) : K :=
-  (bi * (1 - y) + ti * y) + (lj * (1 - x) + rj * x)
-    - (c00 * (1 - x) * (1 - y) + c10 * x * (1 - y) + c01 * (1 - x) * y + c11 * x * y)
-
-/-- `coons_patch(bottom, right, top, left)` for curves that are pairwise compatible (same
-    rationality and dimension). `none` = outside the modelled scope. -/
-def coonsPatch (bottom right top left : Obj K) : PyM (Option (Obj K)) := do
+/-- `coons_patch(bottom, right, top, left)` (surface_factory.py), statement by statement:
+    ```
+    top = top.clone(); left = left.clone(); top.reverse(); left.reverse()
+    s1 = edge_curves(bottom, top); s2 = edge_curves(left, right); s2.swap()
+    rat = s1.rational
+    if rat: bottom = bottom.clone().force_rational(); top.force_rational()
+    s3 = Surface(linear, linear, [bottom[0], bottom[-1], top[0], top[-1]], rat)
+    Surface.make_splines_identical(s1, s2); (s1, s3); (s2, s3)
+    result = s1; result.controlpoints += s2.controlpoints; result.controlpoints -= s3.controlpoints
+    ``` -/
+def coonsPatch (tol : K) (bottom right top left : Obj K) : PyM (Obj K) :=
   let top := top.reverse 0
   let left := left.reverse 0
-  if !(bottom.rational == top.rational && left.rational == right.rational && bottom.rational == left.rational
-       && bottom.ncomp == top.ncomp && left.ncomp == right.ncomp && bottom.ncomp == left.ncomp) then return none
-  let some s1 ← ruled bottom top | return none      -- bases (B1, lin)
-  let some s2 ← ruled left right | return none      -- bases (B2, lin), swapped below
-  let b1 := s1.basis 0
-  let b2 := s2.basis 0
-  let xi ← grev b1
-  let eta ← grev b2
-  let n := xi.size
-  let m := eta.size
-  let nc := s1.ncomp
-  -- corner surface `[bottom[0], bottom[-1], top[0], top[-1]]`
-  let c00 := cpRow bottom 0
-  let c10 := cpRow bottom (-1)
-  let c01 := cpRow top 0
-  let c11 := cpRow top (-1)
-  let cps : Tensor K := Tensor.tabulate [n, m, nc] (fun idx =>
-    let i := idx.getD 0 0
-    let j := idx.getD 1 0
-    let c := idx.getD 2 0
-    let x := xi.getD i 0
-    let y := eta.getD j 0
-    coonsEntry x y (s1.cps.getIdx [i, 0, c]) (s1.cps.getIdx [i, 1, c]) (s2.cps.getIdx [j, 0, c])
-      (s2.cps.getIdx [j, 1, c]) (c00.getD c 0) (c10.getD c 0) (c01.getD c 0) (c11.getD c 0))
-  pure (some { bases := #[b1, b2], cps := cps, rational := s1.rational })
+  match ruled tol true bottom top with
+  | .error e => .error e
+  | .ok s1 =>
+  match ruled tol true left right with
+  | .error e => .error e
+  | .ok s2 =>
+  let s2 := s2.swap 0 1
+  let rat := s1.rational
+  let bottom' := if rat then bottom.forceRational else bottom
+  let top' := if rat then top.forceRational else top
+  match fromCorners 2 [cpRow bottom' 0, cpRow bottom' (-1), cpRow top' 0, cpRow top' (-1)] rat with
+  | .error e => .error e
+  | .ok s3 =>
+  match makeIdentical tol false false s1 s2 none with
+  | .error e => .error e
+  | .ok r12 =>
+  match makeIdentical tol false false r12.1 s3 none with
+  | .error e => .error e
+  | .ok r13 =>
+  match makeIdentical tol false false r12.2 r13.2 none with
+  | .error e => .error e
+  | .ok r23 =>
+  match cpsAdd r13.1.cps r23.1.cps false with
+  | .error e => .error e
+  | .ok c1 =>
+  match cpsAdd c1 r23.2.cps true with
+  | .error e => .error e
+  | .ok c2 => .ok { r13.1 with cps := c2 }
 
-/-- `edge_curves(*curves)` with `type='coons'`. -/
-def edgeCurves (curves : List (Obj K)) (rtol atol : K) : PyM (Option (Obj K)) :=
+/-- `edge_curves(*curves)` with `type='coons'`: two curves → ruled surface; four curves → pairwise
+    `make_splines_compatible`, the closing test on the homogeneous end control points, the
+    re-ordering search, `coons_patch`; any other number → `ValueError`. -/
+def edgeCurves (tol : K) (curves : List (Obj K)) (rtol atol : K) : PyM (Obj K) :=
   match curves with
-  | [c1, c2] => ruled c1 c2
-  | [_, _, _, _] => do
+  | [c1, c2] => ruled tol true c1 c2
+  | [_, _, _, _] =>
     let cs := (compatAll curves.toArray).toList
-    let ordered ← loopOrder (allclose rtol atol) (fun c => cpRow c 0) (fun c => cpRow c (-1))
-      (fun c => c.reverse 0) cs
-    match ordered with
-    | [a, b, c, d] => coonsPatch a b c d
-    | _ => pure none
+    match loopOrder (allclose rtol atol) (fun c => cpRow c 0) (fun c => cpRow c (-1))
+        (fun c => c.reverse 0) cs with
+    | .error e => .error e
+    | .ok [a, b, c, d] => coonsPatch tol a b c d
+    | .ok _ => .error .other
   | _ => .error .value
 
 /-- `surface_factory.extrude(curve, amount)` and `volume_factory.extrude(surf, amount)`. -/
@@ -390,60 +409,69 @@ def extrude (o : Obj K) (amount : List K) : PyM (Obj K) :=
     let top := o3.translate amount
     .ok { bases := o3.bases.push linearBasis, cps := stack2 o3.cps top.cps, rational := o3.rational }
 
-/-- One entry of the six-face volume net, exactly as `edge_surfaces` assembles it
-    (`vol1 + vol2 + vol3 + vol4 − vol_u_edges − vol_v_edges − vol_w_edges`) for blending abscissae
-    `ξ, η, ζ` and the six face nets (one component): `f a` faces `u = a` indexed `(j,k)`, `g b` faces
-    `v = b` indexed `(i,k)`, `h c` faces `w = c` indexed `(i,j)`. -/
-def triNetModel (ξ η ζ : ℕ → K) (nu nv nw : ℕ) (f0 f1 g0 g1 h0 h1 : ℕ → ℕ → K) (i j k : ℕ) : K :=
-  -- weight of end `a ∈ {0,1}` at abscissa `g`
-  let w (a : ℕ) (g : K) : K := if a = 0 then 1 - g else g
-  let last (a n : ℕ) : ℕ := if a = 0 then 0 else n - 1
-  -- the three ruled volumes in (u,v,w) index order
-  let Fu (i j k : ℕ) : K := f0 j k * (1 - ξ i) + f1 j k * ξ i
-  let Fv (i j k : ℕ) : K := g0 i k * (1 - η j) + g1 i k * η j
-  let Fw (i j k : ℕ) : K := h0 i j * (1 - ζ k) + h1 i j * ζ k
-  let ab : List (ℕ × ℕ) := [(0,0), (0,1), (1,0), (1,1)]
-  let abc : List (ℕ × ℕ × ℕ) := [(0,0,0), (0,0,1), (0,1,0), (0,1,1), (1,0,0), (1,0,1), (1,1,0), (1,1,1)]
-  -- corner (u=a, v=b, w=c) from `vol1.corners()` (before its swaps): the faces `umin`, `umax`
-  let corner (a b c : ℕ) : K := (if a = 0 then f0 else f1) (last b nv) (last c nw)
-  let vol4 := abc.foldl (fun acc (a, b, d) => acc + w a (ξ i) * w b (η j) * w d (ζ k) * corner a b d) 0
-  -- vol_u_edges: w-direction edges of vol1, bilinear in (u,v)
-  let eW := ab.foldl (fun acc (a, b) => acc + w a (ξ i) * w b (η j) * Fu (last a nu) (last b nv) k) 0
-  -- vol_v_edges: u-direction edges of vol2, bilinear in (v,w)
-  let eU := ab.foldl (fun acc (b, d) => acc + w b (η j) * w d (ζ k) * Fv i (last b nv) (last d nw)) 0
-  -- vol_w_edges: v-direction edges of vol3, bilinear in (u,w)
-  let eV := ab.foldl (fun acc (a, d) => acc + w a (ξ i) * w d (ζ k) * Fw (last a nu) j (last d nw)) 0
-  Fu i j k + Fv i j k + Fw i j k + vol4 - eW - eU - eV
+/-- Assemble one of the three edge-correction nets of `edge_surfaces`: a control array with axes
+    `2` in the two directions `≠ keep` and the length of `src` in direction `keep`; entry at corner
+    `(a, b)` of the two linear directions is the edge of `src` at the ends `(a, b)` of those
+    directions. -/
+def edgeNet (src : Tensor K) (keep : ℕ) : Tensor K :=
+  let n := src.shape.getD keep 0
+  let d := src.shape.getLastD 0
+  let shape := (List.range 3).map (fun k => if k = keep then n else 2)
+  Tensor.tabulate (shape ++ [d]) (fun idx =>
+    let full := (List.range 3).map (fun k =>
+      if k = keep then idx.getD k 0 else if idx.getD k 0 = 0 then 0 else src.shape.getD k 1 - 1)
+    src.getIdx (full ++ [idx.getD 3 0]))
 
-/-- `edge_surfaces(*surfaces)`. -/
-def edgeSurfaces (surfs : List (Obj K)) : PyM (Option (Obj K)) :=
+/-- `edge_surfaces(*surfaces)` (volume_factory.py), statement by statement.  Two faces: the ruled
+    volume.  Six faces (`umin, umax, vmin, vmax, wmin, wmax`; rational input → `RuntimeError`):
+    ```
+    vol1 = edge_surfaces(umin,umax); vol2 = edge_surfaces(vmin,vmax); vol3 = edge_surfaces(wmin,wmax)
+    vol4 = Volume(controlpoints=vol1.corners(order='F'), rational=vol1.rational)
+    vol1.swap(0, 2); vol1.swap(1, 2); vol2.swap(1, 2); vol4.swap(1, 2)
+    make_splines_identical on the six pairs (1,2) (1,3) (1,4) (2,3) (2,4) (3,4)
+    result = vol1.clone(); result += vol2, vol3, vol4
+    vol_u_edges / vol_v_edges / vol_w_edges from the corner edges of vol1 / vol2 / vol3
+    make_splines_identical(result, each); result -= each
+    ``` -/
+def edgeSurfaces (tol : K) (surfs : List (Obj K)) : PyM (Obj K) :=
   match surfs with
-  | [s1, s2] => ruled s1 s2
+  | [s1, s2] => ruled tol false s1 s2
   | [umin, umax, vmin, vmax, wmin, wmax] => do
     if surfs.any (·.rational) then throw .runtime
-    if !(surfs.all (fun s => s.ncomp == umin.ncomp)) then return none
-    let some v1 ← ruled umin umax | return none     -- (v, w, lin)
-    let some v2 ← ruled vmin vmax | return none     -- (u, w, lin)
-    let some v3 ← ruled wmin wmax | return none     -- (u, v, lin)
-    let bu := v2.basis 0
-    let bv := v1.basis 0
-    let bw := v1.basis 1
-    if !(sameBasis (v3.basis 0) bu && sameBasis (v3.basis 1) bv && sameBasis (v2.basis 1) bw) then return none
-    let xi ← grev bu
-    let eta ← grev bv
-    let zeta ← grev bw
-    let nu := xi.size
-    let nv := eta.size
-    let nw := zeta.size
-    let nc := umin.ncomp
-    let cps : Tensor K := Tensor.tabulate [nu, nv, nw, nc] (fun idx =>
-      let c := idx.getD 3 0
-      triNetModel (fun i => xi.getD i 0) (fun j => eta.getD j 0) (fun k => zeta.getD k 0) nu nv nw
-        (fun j k => v1.cps.getIdx [j, k, 0, c]) (fun j k => v1.cps.getIdx [j, k, 1, c])
-        (fun i k => v2.cps.getIdx [i, k, 0, c]) (fun i k => v2.cps.getIdx [i, k, 1, c])
-        (fun i j => v3.cps.getIdx [i, j, 0, c]) (fun i j => v3.cps.getIdx [i, j, 1, c])
-        (idx.getD 0 0) (idx.getD 1 0) (idx.getD 2 0))
-    pure (some { bases := #[bu, bv, bw], cps := cps, rational := false })
+    let vol1 ← ruled tol false umin umax
+    let vol2 ← ruled tol false vmin vmax
+    let vol3 ← ruled tol false wmin wmax
+    let cs ← vol1.corners true
+    let nc := vol1.ncomp
+    let vol4 ← fromCorners 3 ((List.range 8).map (fun r => cs.data.extract (r * nc) (r * nc + nc))) vol1.rational
+    let vol1 := (vol1.swap 0 2).swap 1 2
+    let vol2 := vol2.swap 1 2
+    let vol4 := vol4.swap 1 2
+    let (vol1, vol2) ← makeIdentical tol false false vol1 vol2 none
+    let (vol1, vol3) ← makeIdentical tol false false vol1 vol3 none
+    let (vol1, vol4) ← makeIdentical tol false false vol1 vol4 none
+    let (vol2, vol3) ← makeIdentical tol false false vol2 vol3 none
+    let (vol2, vol4) ← makeIdentical tol false false vol2 vol4 none
+    let (vol3, vol4) ← makeIdentical tol false false vol3 vol4 none
+    let c ← cpsAdd vol1.cps vol2.cps false
+    let c ← cpsAdd c vol3.cps false
+    let c ← cpsAdd c vol4.cps false
+    let result : Obj K := { vol1 with cps := c }
+    -- the slots `controlpoints[0, 0, :] = vol1.controlpoints[0, 0]` … have the shape of `result`
+    if vol1.cps.shape ≠ c.shape ∨ vol2.cps.shape ≠ c.shape ∨ vol3.cps.shape ≠ c.shape then throw .value
+    let volU : Obj K := { bases := #[linearBasis, linearBasis, result.basis 2], cps := edgeNet vol1.cps 2,
+                          rational := result.rational }
+    let volV : Obj K := { bases := #[result.basis 0, linearBasis, linearBasis], cps := edgeNet vol2.cps 0,
+                          rational := result.rational }
+    let volW : Obj K := { bases := #[linearBasis, result.basis 1, linearBasis], cps := edgeNet vol3.cps 1,
+                          rational := result.rational }
+    let (result, volU) ← makeIdentical tol false false result volU none
+    let (result, volV) ← makeIdentical tol false false result volV none
+    let (result, volW) ← makeIdentical tol false false result volW none
+    let c ← cpsAdd result.cps volU.cps true
+    let c ← cpsAdd c volV.cps true
+    let c ← cpsAdd c volW.cps true
+    pure { result with cps := c }
   | _ => .error .value
 
 end Obj
